@@ -14,7 +14,7 @@ for sd, v in m.items():
         mp = os.path.join(V, "seeded", name, "meta.json")
         if os.path.exists(mp):
             meta = json.load(open(mp))
-            meta["detected_by"] = {p: sorted({k.split("/", 1)[1] for k in ks}) for p, ks in sorted(v.items())}
+            meta["detected_by"] = {p: sorted({(k.split("/", 1)[1] if "/" in k else k) for k in ks}) for p, ks in sorted(v.items())}
             json.dump(meta, open(mp, "w"), indent=1)
     elif "/mutants/" in sd:
         mut[name] = {p: sorted(ks) for p, ks in sorted(v.items())}
